@@ -41,11 +41,23 @@ Proof.
   apply IH.
 Qed.
 
+Lemma build_from_parallel c parallel workers t st0 seeds :
+  build_from c parallel workers t st0 seeds = build_from c false 0 t st0 seeds.
+Proof.
+  unfold build_from. destruct (s_pool (init_pool st0 seeds)); [reflexivity|apply build_loop_parallel].
+Qed.
+
 Lemma main_crn_parallel_equals_serial :
   forall (c : crn_cfg) (parallel : bool) (workers : nat) (t : exec_table) (seeds : list (option N)),
   build c parallel workers t seeds = build c false 0 t seeds.
+Proof. intros. apply build_from_parallel. Qed.
+
+Lemma main_crn_builds_parallel_equals_serial :
+  forall (c : crn_cfg) (parallel : bool) (workers : nat) (t : exec_table) (calls : list (list (option N))) (st0 : crn_state),
+  builds_from c parallel workers t st0 calls = builds_from c false 0 t st0 calls.
 Proof.
-  intros. unfold build. destruct (s_pool (init_pool seeds)); [reflexivity|apply build_loop_parallel].
+  intros c parallel workers t calls. induction calls as [|seeds calls IH]; intros st0; simpl; [reflexivity|].
+  rewrite build_from_parallel. destruct (build_from c false 0 t st0 seeds) as [st1 n1]. rewrite IH. reflexivity.
 Qed.
 
 (** ** every task carries the rule of its index; every result the index and mixture of its task *)
@@ -104,7 +116,7 @@ Qed.
 (** ** Non-vacuity: three rules (a three-component rule that cannot produce a task under max_components = 2, then
     two two-component rules), species 0,1,2 as seeds; rule 1 turns {0,1} into {3}, rule 2 turns {1,2} into {4,0}:
     the parallel build attributes the two events to rule indices 1 and 2 (not to the slots 0 and 1). *)
-Definition ex_cfg : crn_cfg := CrnCfg [(3, 0%N); (2, 1%N); (2, 2%N)] 2 2 true false 50000%N 200000%N.
+Definition ex_cfg : crn_cfg := CrnCfg [(3, 0%N); (2, 1%N); (2, 2%N)] 2 2 true false 50000%N 200000%N true false true.
 Definition ex_tbl : exec_table :=
   [ ((1%N, [0%N; 1%N]), [[3%N]]); ((2%N, [1%N; 2%N]), [[4%N; 0%N]]) ].
 Definition ex_seeds : list (option N) := [Some 0%N; Some 1%N; None; Some 2%N].
